@@ -307,6 +307,115 @@ def kx_extend_width(params, timeout):
     return res
 
 
+def kx_extend_dim(params, timeout):
+    """IEEE-754 search for extend_dim: the real function is run over z3 Float64 terms on an np.arange-style
+    axis; every label handed to reindex at the position of an original sample must be the original term or
+    provably fp-equal to it (reindex matches labels bit for bit)."""
+    import math
+    import types
+
+    import z3
+
+    from models import npl, xrl
+    from vf import kx
+
+    n = params["n"]
+    start, step = kx.var("start", 0.5), kx.var("step", 0.25)
+    a, b = kx.var("a", 0.125), kx.var("b", 0.5 + 0.25 * (n - 1) + 0.3)  # request: one new sample on each side
+    delta = (start + step) - start
+    xs = [start + i * delta for i in range(n)]
+    base = [kx.finite_between(start, -1000.0, 1000.0), kx.finite_between(step, 0.001, 1000.0),
+            kx.finite_between(a, -3000.0, 3000.0), kx.finite_between(b, -3000.0, 3000.0),
+            z3.fpLEQ(a.e, xs[0].e), z3.fpLEQ(xs[-1].e, b.e)]
+    reindexed = []
+
+    class Stop(Exception):
+        pass
+
+    def arange(a_, b_=None, s_=1, dtype=None):
+        if b_ is None:
+            a_, b_ = 0, a_
+        if all(isinstance(x, (int, kx.ZI)) and not isinstance(x, bool) for x in (a_, b_, s_)):
+            lo, hi, st = (int(x) for x in (a_, b_, s_))  # ZI: concretised by forking, exact value first
+            r = list(range(lo, hi, st))
+            return npl.ndarray(r, (len(r),), None)
+        k = max(0, math.ceil((kx.shadow(b_) - kx.shadow(a_)) / kx.shadow(s_)))
+        return npl.ndarray([a_ + i * s_ for i in range(k)], (k,), None)
+
+    class RecArr(xrl.DataArray):
+        def reindex(self, indexers=None, fill_value=None, **kw):
+            reindexed.append(dict(indexers or {}, **kw))
+            raise Stop()
+
+    fake_np = types.SimpleNamespace(arange=arange, concatenate=npl.concatenate, float64=npl.float64,
+                                    ndarray=npl.ndarray, ceil=kx.zf_ceil, floor=kx.zf_floor)
+
+    def run():
+        del reindexed[:]
+        coord = xrl.Variable("time", npl.ndarray(list(xs), (n,), None), {"step": step})
+        arr = RecArr(npl.ndarray([0.0] * n, (n,), None), dims=("time",), coords={"time": coord})
+        try:
+            O.extend_dim(arr, "time", start=a, stop=b, fill_value=0.0)
+        except Stop:
+            pass
+        return [x for x in (reindexed[0]["time"].tolist() if reindexed else [])]
+
+    saved = (O.np, O.xr, D.np, D.xr, O.__dict__.get("int"), O.__dict__.get("max"))
+    O.np, D.np = fake_np, fake_np
+    O.xr, D.xr = xrl.xarray, xrl.xarray
+    O.int, O.max = kx.kx_int, kx.kx_max
+    try:
+        paths = kx.explore(run, max_paths=24, base=base, prune_timeout_ms=2000)
+    finally:
+        O.np, O.xr, D.np, D.xr = saved[:4]
+        for name, old in (("int", saved[4]), ("max", saved[5])):
+            if old is None:
+                delattr(O, name)
+            else:
+                setattr(O, name, old)
+    queries = 0
+    unknown = False
+    spent = 0.0
+    for pc, labels in paths:
+        if isinstance(labels, Exception) or not labels:
+            continue
+        # originals are a contiguous block: find where the first original should sit via the shadows
+        sh = [kx.shadow(x) if isinstance(x, kx.ZF) else x for x in labels]
+        try:
+            pos = sh.index(kx.shadow(xs[0]))
+        except ValueError:
+            continue
+        moved = []
+        for i in range(n):
+            if pos + i >= len(labels):
+                break
+            lab = labels[pos + i]
+            if lab is xs[i] or (isinstance(lab, kx.ZF) and lab.e.eq(xs[i].e)):
+                continue
+            moved.append(z3.Not(z3.fpEQ(kx.lift(lab), xs[i].e)))
+        if not moved:
+            continue
+        r = kx.solve(base + pc + [z3.Or(*moved)], max(5.0, (timeout - spent) / 3),
+                     {"start": start, "step": step, "a": a, "b": b})
+        queries += 1
+        spent += r["solve_s"]
+        if r["status"] == "sat":
+            m = r["model"]
+            return {"status": "refuted", "replay_fn": "ob_extend", "queries": queries, "paths": len(paths),
+                    "args": [[m["start"], m["step"], m["a"], m["b"], 0.5], {}], "solve_s": round(spent, 1),
+                    "message": "z3 model: an original coordinate is regenerated with another bit pattern for "
+                    "start=%r step=%r request=[%r, %r)" % (m["start"], m["step"], m["a"], m["b"]),
+                    "clause": "original sample moved or new sample not filled"}
+        if r["status"] != "unsat":
+            unknown = True
+    out = {"queries": queries, "paths": len(paths), "solve_s": round(spent, 1)}
+    if unknown:
+        out.update(status="searched", message="no IEEE counterexample found within the budget (z3: unknown)")
+    else:
+        out.update(status="confirmed", note="original labels are handed to reindex unchanged on every explored path")
+    return out
+
+
 def plan():
     q = ("quick", "thorough")
     obs = []
@@ -340,6 +449,9 @@ def plan():
                     obs.append(Ob("width-n%d-w%d-%s-%s" % (n, width, position, "attr" if attr else "est"), ob_width,
                                   "real", 600, dict(n=n, width=width, position=position, with_attr=attr),
                                   q if quick else ("thorough",), twins=("ok",) if width >= 1 else ("rejected",)))
+    for n in (2, 3):
+        obs.append(Ob("ieee-extend-n%d" % n, kx_extend_dim, "kx", 900, dict(n=n, K=2, with_attr=True,
+                                                                            axis_style="arange"), ("thorough",), kind="py"))
     for (n, width, position) in ((1, 8, "start"), (1, 4, "end"), (1, 12, "center"), (2, 9, "start"),
                                  (3, 6, "center"), (4, 7, "end"), (4, 6, "start")):
         obs.append(Ob("ieee-width-n%d-w%d-%s" % (n, width, position), kx_extend_width, "kx", 180,
